@@ -232,6 +232,10 @@ func crashClass(stderr string) string {
 			break
 		}
 	}
+	if kind == "data race" && site == "unknown" {
+		// both stacks lie in the harness: a harness bug, never a property violation
+		return "harness-race"
+	}
 	// numbers in the message (sizes, addresses) would make classes unstable
 	kind = stripDigits(kind)
 	return "crash|" + kind + "|" + site
@@ -857,8 +861,12 @@ func check() int {
 	if a.runs == 0 {
 		fatal2("no run completed (see %s)", work)
 	}
-	if len(a.nondet) > 0 {
-		fatal2("nondeterministic runs detected (indices %v): results are not believed", a.nondet)
+	// A run whose digest differs on re-execution is not believed (it is discarded from every count), but it
+	// cannot hide a violation: violations are only reported after they reproduced in a fresh process.
+	// Go's select among several ready cases is the one runtime choice the simulator cannot seed; plans avoid
+	// such ties, and more than a handful of divergent runs means the harness lost control: exit 2.
+	if n := len(a.nondet); n > 3 && n*100 > 3*a.rechecked {
+		fatal2("%d of %d re-executed runs diverged (indices %v): results are not believed", n, a.rechecked, a.nondet)
 	}
 
 	known := loadKnown()
@@ -932,7 +940,12 @@ func check() int {
 					var plan map[string]any
 					pb, _ := os.ReadFile(pf)
 					unmarshal(pb, &plan)
-					add(crashClass(stderr), plan, nil, stderr, c.Free)
+					if cc := crashClass(stderr); cc == "harness-race" {
+						trouble++
+						fmt.Fprintf(os.Stderr, "data race inside the harness (no frame under the repository):\n%s\n", tailStr(stderr, 60))
+					} else {
+						add(cc, plan, nil, stderr, c.Free)
+					}
 					reproduced = true
 				} else if err == nil && len(r.Violations) > 0 {
 					reproduced = true // shows up as an ordinary violation when run alone
@@ -979,7 +992,7 @@ func check() int {
 		pf := filepath.Join(work, "confirm.json")
 		confirm := func(p map[string]any) bool {
 			writeJSON(pf, p)
-			tries := 1
+			tries := 4
 			if f.free {
 				tries = 20
 			}
